@@ -1485,7 +1485,7 @@ class Tableau(Sequence[Branch], EventEmitter, metaclass=TableauMeta):
                 # recurse
                 next_branches = deque(b for b in branches if b[depth] == node)
                 child = cls._build(tab, next_branches, depth, memo)
-                tree.descendant_node_count = len(child.nodes) + child.descendant_node_count
+                tree.descendant_node_count += len(child.nodes) + child.descendant_node_count
                 tree.width += child.width
                 tree.children.append(child)
                 if i == 0:
